@@ -79,6 +79,8 @@ def check_peeks(rep, facts, rule):
         if top not in early:
             continue
         uses_labels = IS.contains(s.env, ('name', 'labels')) or s.env[0] == 'name'
+        if s.env[0] == 'name' and LB.param_holds_labels(facts, top, s.env[1]) is False:
+            uses_labels = False      # evaluated against a table assemble fills with constants only
         if not uses_labels:
             continue
         n += 1
@@ -129,5 +131,5 @@ def run(repo, tier):
     rep.floor('baking evaluation sites', 1)
     rep.floor('early evaluation sites', 7)
     rep.floor('expression-carrying fields', 14)
-    rep.floor('label environments', 5)
+    rep.floor('label environments', 3)
     return rep
